@@ -37,6 +37,10 @@ def decode_obs(ans):
 def rand_area(r, centered=0.5, maxh=7, maxw=7):
     """view areas of any extent: the usual 'agent at the bottom centre' shape, asymmetric ones, ones not containing the agent"""
     k = r.random()
+    if r.random() < 0.08:
+        # one-cell and one-line views, anywhere around the agent
+        y0, x0 = r.randint(-3, 3), r.randint(-3, 3)
+        return r.choice([(y0, y0, x0, x0), (y0, y0, x0, x0 + r.randint(1, 3)), (y0, y0 + r.randint(1, 3), x0, x0)])
     if k < centered:
         h = r.randint(1, maxh)
         half = r.randint(0, maxw // 2)
